@@ -68,6 +68,13 @@ def run(P, R, tier):
                 f'writer byte keys {sorted(wb)} do not include the reader\'s {sorted(rb)}: stored bounds are never found', construct='metadata byte key')
         R.check('partition_bounds' in ws and 'partition_bounds' in rs, 'C12.a', w, None, 'writer and reader agree on the "partition_bounds" key',
                 'writer/reader disagree on the "partition_bounds" key', construct='partition_bounds key')
+    for w in (w1, w2):
+        for g in [w] + list(w.nested.values()):
+            for c in astq.own_calls(g):
+                if norm(c.func).endswith('json.dumps') or norm(c.func) == 'dumps':
+                    strict = any(k.arg == 'allow_nan' and norm(k.value) == 'False' for k in c.keywords)
+                    R.check(not strict, 'C12.a', g, c, 'the bounds metadata is serialised with NaN allowed (a partition without valid geometry has NaN bounds)',
+                            f'`{norm(c)}` refuses NaN: a partition whose geometry column is entirely missing makes the writer raise after the parts were written (no _common_metadata)')
     # column lists: every list literal of 4 strings starting with 'x0' must be exactly COLS
     ncol = 0
     for f in [pb, w2] + list(w2.nested.values()) + list(pb.lambdas):
